@@ -199,6 +199,12 @@ func lookupExternal(name string) externalFn {
 	if ext := externals[name]; ext != nil {
 		return ext
 	}
+	if strings.HasSuffix(name, "/zzkb.LoadLibrary") {
+		return func(fr *frame, args []value) value {
+			t := fr.fn.Signature.Results().At(0).Type()
+			return importImage(fr, args[0].(string), t)
+		}
+	}
 	if strings.Contains(name, verifSuffix) {
 		return verifIntercept(name)
 	}
